@@ -27,8 +27,12 @@ Section RR.
   Variables (qs rs : list aitem) (e1 e2 : N).
   Hypothesis Hq : chain question_at (fun _ => True) 12 qs e1.
   Hypothesis Hr : chain record_at (fun it => a_data_ok it = true) e1 rs e2.
-  Hypothesis Hnq : lenN qs = nq.
-  Hypothesis Hnr : lenN rs = an + ns + ar.
+  (* the lists are the items the pass parses COMPLETELY: all announced ones, or a prefix (then the
+     pass stopped at the first item that does not parse; no record is looked at unless all
+     questions parsed) *)
+  Hypothesis Hnq : lenN qs <= nq.
+  Hypothesis Hshort : lenN qs < nq -> rs = [].
+  Hypothesis Hnr : lenN rs <= an + ns + ar.
   Hypothesis Hc1 : nq <= 65535.
   Hypothesis Hc2 : an <= 65535.
   Hypothesis Hc3 : ns <= 65535.
@@ -119,6 +123,8 @@ Section RR.
     P (nq + k) = a_start it /\ P (nq + k + 1) = a_end it /\ record_at msg (P (nq + k)) = Some it /\ a_data_ok it = true.
   Proof.
     intro H. pose proof (getN_lt _ _ _ H) as Hk.
+    assert (Hfull : lenN qs = nq).
+    { destruct (N.lt_ge_cases (lenN qs) nq) as [Hlt|Hge]; [|lia]. rewrite (Hshort Hlt), getN_nil in H. discriminate. }
     destruct (chain_get _ _ Hfr _ _ _ Hr) as (_ & _ & _ & G). destruct (G _ _ H) as (A1 & A2 & _ & _ & A5).
     unfold P, items. rewrite getN_app2 by lia. replace (nq + k - lenN qs) with k by lia. rewrite H.
     split; [reflexivity|]. split; [|split; [exact A1|exact A2]].
@@ -163,7 +169,7 @@ Section RR.
     exists r', rd_question msg false true r = (r', Ok (OQuestionRef (r_cur r) (a_type it) (a_class it))) /\
                RState r' (idx + 1) (idx + 1).
   Proof.
-    intros (Hw & Hp & Hi & Hd) Hg. pose proof (getN_lt _ _ _ Hg) as Hlt. rewrite Hnq in Hlt.
+    intros (Hw & Hp & Hi & Hd) Hg. pose proof (getN_lt _ _ _ Hg) as Hlt0. assert (Hlt : idx < nq) by lia.
     destruct (P_question idx it Hg) as (P1 & P2 & P3).
     unfold rd_question. rewrite Hd.
     destruct (counts_spec nq an ns ar P Hc1 Hc2 Hc3 Hc4 P_bounds _ _ _ Hi) as (Cq & _). rewrite Cq.
@@ -189,7 +195,7 @@ Section RR.
                   RState r2 (idx + 1) (N.max hw (idx + 1)).
   Proof.
     intros (Hw & Hp & Hi & Hd) Hge Hg. cbv zeta.
-    pose proof (getN_lt _ _ _ Hg) as Hlt. rewrite Hnr in Hlt.
+    pose proof (getN_lt _ _ _ Hg) as Hlt0. assert (Hlt : idx - nq < an + ns + ar) by lia.
     destruct (P_record (idx - nq) it Hg) as (P1 & P2 & P3 & P4).
     replace (nq + (idx - nq)) with idx in * by lia.
     destruct (record_step nq an ns ar P Hc1 Hc2 Hc3 Hc4 P_bounds _ _ _ Hi Hge ltac:(unfold nrec, lin; cbn; lia)) as (tr1 & En & tr' & Es & Hi').
@@ -221,6 +227,75 @@ Section RR.
     destruct (seek_step nq an ns ar P Hc1 Hc2 Hc3 Hc4 P_bounds _ _ _ s Hi Hs) as [Hyes _]. destruct (Hyes Hk) as [Eo Hi'].
     unfold rd_seek. rewrite Hd, Eo. eexists. split; [reflexivity|].
     split; [apply whole_set_pos; exact Hw|]. split; [reflexivity|]. split; [exact Hi'|reflexivity].
+  Qed.
+
+  (* ---------------------------------------------------------------- the first item that does not parse *)
+  (* past the parsed items the reader stands where the pass stopped *)
+  Lemma P_end k : lenN qs + lenN rs <= k -> P k = e2.
+  Proof. intro H. unfold P, items. rewrite getN_none; [reflexivity|]. unfold lenN in *. rewrite app_length. lia. Qed.
+
+  Lemma record_at_fixed p it : record_at msg p = Some it -> a_type_off it + 10 <= lenN msg.
+  Proof.
+    unfold record_at. destruct (name_at msg p) as [[r fits]|]; [|discriminate].
+    unfold be. destruct (r + 2 <=? lenN msg); [|discriminate]. destruct (r + 2 + 2 <=? lenN msg); [|discriminate].
+    destruct (r + 4 + 4 <=? lenN msg); [|discriminate]. destruct (r + 8 + 2 <=? lenN msg) eqn:E; [|discriminate].
+    intro H; inversion H; subst. cbn. lia.
+  Qed.
+
+  Lemma c_skip_err c d : pos c <= lim c -> lim c < pos c + d -> exists e, c_skip c d = Err e.
+  Proof.
+    intros H0 H. unfold c_skip, c_len. rewrite cursor_len_spec.
+    destruct (skip_guard (lim c - pos c) d) eqn:G; [apply skip_guard_spec in G; lia|eauto].
+  Qed.
+
+  (* a question that does not parse: the call fails and the reader is exhausted *)
+  Lemma fail_question r idx hw : RState r idx hw -> idx = lenN qs -> idx < nq -> question_at msg e2 = None ->
+    exists r' e, rd_question msg false true r = (r', Err e) /\ r_done r' = true.
+  Proof.
+    intros (Hw & Hp & Hi & Hd) Hidx Hlt Hnone.
+    assert (Hrs : rs = []) by (apply Hshort; lia).
+    assert (Hrs0 : lenN rs = 0) by (rewrite Hrs; reflexivity).
+    assert (HP : P idx = e2) by (apply P_end; lia).
+    unfold rd_question. rewrite Hd.
+    destruct (counts_spec nq an ns ar P Hc1 Hc2 Hc3 Hc4 P_bounds _ _ _ Hi) as (Cq & _). rewrite Cq.
+    assert (Eq : q_none_left (nq - N.min idx nq) = false) by (unfold q_none_left; lia). rewrite Eq.
+    unfold run. pose proof (question_ref_is_question_at msg (r_cur r) Hw) as Hqr. rewrite Hp, HP, Hnone in Hqr.
+    destruct Hqr as (c' & e & Hqr). rewrite Hqr. unfold after_question. eexists. exists e. split; reflexivity.
+  Qed.
+
+  (* a record whose header does not parse: the header call fails and the reader is exhausted;
+     a record whose header parses but whose data does not fit: the header call returns exactly
+     that header, the data call fails and the reader is exhausted *)
+  Lemma fail_record r idx hw : RState r idx hw -> lenN qs = nq -> idx = nq + lenN rs -> lenN rs < an + ns + ar ->
+    match record_at msg e2 with
+    | None => exists r' e, rd_marker msg r = (r', Err e) /\ r_done r' = true
+    | Some it =>
+      a_data_ok it = false ->
+      let mk := mkMarker e2 (a_type_off it) (a_type it) (a_class it) (a_ttl it) (a_rdlen it) (section_of (lin nq an ns ar) (idx - nq)) in
+      exists r1 r2 e, rd_marker msg r = (r1, Ok (OMarker mk)) /\ rd_skip_data mk r1 = (r2, Err e) /\ r_done r2 = true
+    end.
+  Proof.
+    intros (Hw & Hp & Hi & Hd) Hfull Hidx Hlt.
+    assert (HP : P idx = e2) by (apply P_end; lia).
+    destruct (record_step nq an ns ar P Hc1 Hc2 Hc3 Hc4 P_bounds _ _ _ Hi ltac:(lia) ltac:(unfold nrec, lin; cbn; lia)) as (tr1 & En & _).
+    set (s := section_of (lin nq an ns ar) (idx - nq)) in *.
+    pose proof (marker_is_record_at msg (r_cur r) (P idx) s Hw) as Hm. rewrite Hp, HP in Hm. rewrite HP in En.
+    destruct (record_at msg e2) as [it|] eqn:Era.
+    - destruct Hm as (Hm & M1 & M2 & M3). intro Hbad. cbv zeta. pose proof (record_at_fixed _ _ Era) as Hfix.
+      assert (E1 : rd_marker msg r = (mkReader (c_set_pos (r_cur r) (a_type_off it + 10)) tr1 false,
+                                       Ok (OMarker (mkMarker e2 (a_type_off it) (a_type it) (a_class it) (a_ttl it) (a_rdlen it) s)))).
+      { unfold rd_marker, marker_impl, calc_section. rewrite Hd, Hp, HP, En. unfold bind2, run, latch. cbn [with_tr r_cur r_tr r_done fst snd].
+        rewrite Hm. cbn [fst snd]. unfold with_cur, with_tr. cbn [r_cur r_tr r_done]. rewrite Hd. reflexivity. }
+      destruct Hw as [Hl Ho].
+      destruct (c_skip_err (c_set_pos (r_cur r) (a_type_off it + 10)) (a_rdlen it)) as [e Ee]; [cbn [pos lim c_set_pos]; lia|cbn [pos lim c_set_pos]; lia|].
+      eexists. eexists. exists e. split; [exact E1|].
+      unfold rd_skip_data, rdata_pos. cbn [r_cur r_done pos c_set_pos m_type_off m_rdlen m_section]. unfold TYPE_TO_RDATA_OFFSET.
+      rewrite N.eqb_refl. cbn [negb].
+      unfold skip_record_data_impl, after_data, run, mbind, mret, lift_c, lift. cbn [r_cur r_tr with_cur m_rdlen m_section].
+      rewrite Ee. cbn [bind]. split; reflexivity.
+    - destruct Hm as (c' & e & Hm).
+      unfold rd_marker, marker_impl, calc_section. rewrite Hd, Hp, HP, En. unfold bind2, run, latch. cbn [with_tr r_cur r_tr r_done fst snd].
+      rewrite Hm. cbn [fst snd]. eexists. exists e. split; reflexivity.
   Qed.
 
   (* ---------------------------------------------------------------- every allowed sequence *)
@@ -256,13 +331,24 @@ Section RR.
       end
     end.
 
+  (* every read of the sequence is a read of an item of the lists (automatic when the lists are
+     complete: [allowed_within]) *)
+  Fixpoint within (ops : list top) (idx hw : N) : Prop :=
+    match ops with
+    | [] => True
+    | o :: rest =>
+      match o with TQuestion => idx < lenN qs | TRecord => idx - nq < lenN rs | TSeek _ => True end /\
+      match astep_t nq an ns ar idx hw o with Some (i, h) => within rest i h | None => True end
+    end.
+
   Theorem reader_refines : forall ops r idx hw idx' hw',
-    RState r idx hw -> allowed nq an ns ar ops idx hw = Some (idx', hw') ->
+    RState r idx hw -> allowed nq an ns ar ops idx hw = Some (idx', hw') -> within ops idx hw ->
     exists r', RState r' idx' hw' /\ prescribed r' ops r idx hw.
   Proof.
-    induction ops as [|o ops IH]; intros r idx hw idx' hw' Hs Ha; cbn [allowed] in Ha.
+    induction ops as [|o ops IH]; intros r idx hw idx' hw' Hs Ha Hin; cbn [allowed] in Ha.
     - inversion Ha; subst. exists r. split; [exact Hs|reflexivity].
-    - destruct (astep_t nq an ns ar idx hw o) as [[i h]|] eqn:Ea; [|discriminate].
+    - cbn [within] in Hin. destruct Hin as [Hin1 Hin2].
+      destruct (astep_t nq an ns ar idx hw o) as [[i h]|] eqn:Ea; [|discriminate].
       assert (Hstep : exists r1 out, rstep r o = (r1, Ok out) /\ expected idx o out /\ RState r1 i h).
       { destruct o as [| |s]; cbn [astep_t rstep] in *.
         - destruct (idx <? nq) eqn:E; [|discriminate]. injection Ea as <- <-.
@@ -272,7 +358,7 @@ Section RR.
           + exists it, (r_cur r). split; [exact Hg|]. split; [reflexivity|]. destruct Hs as (_ & Hp & _). destruct (P_question idx it Hg) as (P1 & _). congruence.
           + destruct Hs as (_ & _ & (A & B & C & _) & _). replace (N.max hw (idx + 1)) with (idx + 1) by lia. exact S1.
         - destruct ((nq <=? idx) && (idx <? nq + nrec (lin nq an ns ar))) eqn:E; [|discriminate]. injection Ea as <- <-.
-          assert (Hr' : idx - nq < lenN rs) by (unfold nrec, lin in E; cbn in E; lia).
+          assert (Hr' : idx - nq < lenN rs) by exact Hin1.
           destruct (getN_some rs (idx - nq) Hr') as [it Hg].
           destruct (step_record r idx hw it Hs ltac:(lia) Hg) as (r1 & r2 & E1 & E2 & S2). cbv zeta in E1, E2.
           rewrite E1, E2. eexists. eexists. split; [reflexivity|]. split; [|exact S2].
@@ -281,10 +367,20 @@ Section RR.
           apply Bool.andb_true_iff in E. destruct E as [E1 E2].
           destruct (step_seek r idx hw s Hs ltac:(lia) E2) as (r1 & Es & S1). exists r1, OUnit. split; [exact Es|]. split; [reflexivity|exact S1]. }
       destruct Hstep as (r1 & out & E1 & Hexp & S1).
-      destruct (IH r1 i h idx' hw' S1 Ha) as (r' & Sr' & Hgo). exists r'. split; [exact Sr'|].
+      destruct (IH r1 i h idx' hw' S1 Ha Hin2) as (r' & Sr' & Hgo). exists r'. split; [exact Sr'|].
       cbn [prescribed]. rewrite Ea, E1. split; [exact Hexp|exact Hgo].
   Qed.
 End RR.
+
+Lemma allowed_within nq an ns ar (qs rs : list aitem) : lenN qs = nq -> lenN rs = an + ns + ar ->
+  forall ops idx hw res, allowed nq an ns ar ops idx hw = Some res -> within nq an ns ar qs rs ops idx hw.
+Proof.
+  intros F1 F2. induction ops as [|o ops IH]; intros idx hw res Ha; cbn [allowed within] in *; [exact I|].
+  destruct (astep_t nq an ns ar idx hw o) as [[i h]|] eqn:Ea; [|discriminate]. split; [|eapply IH; exact Ha].
+  destruct o as [| |s]; cbn [astep_t] in Ea; [| |exact I].
+  - destruct (idx <? nq) eqn:E; [lia|discriminate].
+  - destruct ((nq <=? idx) && (idx <? nq + nrec (lin nq an ns ar))) eqn:E; [|discriminate]. unfold nrec, lin in E; cbn in E. lia.
+Qed.
 
 (* ---------------------------------------------------------------- from the linear pass to the chains *)
 Section L.
@@ -322,6 +418,89 @@ Section L.
     intro H; inversion H; subst. cbn [length]. specialize (IH _ _ Ep). lia.
   Qed.
 
+  (* the general case: the pass yields a chain of completely parsed items and, if it stopped early,
+     stopped either at an item that does not parse or (records) at a header whose data does not fit *)
+  Lemma pass_prefix f nd : forall n p its eo, pass msg f n p nd = (its, eo) ->
+    exists good e, chain msg f (fun it => nd = true -> a_data_ok it = true) p good e /\ (length good <= n)%nat /\
+      match eo with
+      | Some e' => its = good /\ e' = e /\ length good = n
+      | None => (length good < n)%nat /\
+                ((its = good /\ f msg e = None) \/
+                 (exists it, its = good ++ [it] /\ f msg e = Some it /\ nd = true /\ a_data_ok it = false))
+      end.
+  Proof.
+    induction n as [|n IH]; intros p its eo; cbn [pass].
+    - intro H; inversion H; subst. exists [], p. split; [constructor|]. split; [cbn; lia|]. repeat split.
+    - destruct (f msg p) as [it|] eqn:Ef.
+      + destruct (nd && negb (a_data_ok it)) eqn:Ed.
+        * intro H; inversion H; subst. exists [], p. split; [constructor|]. split; [cbn; lia|]. split; [cbn; lia|].
+          right. exists it. apply Bool.andb_true_iff in Ed. destruct Ed as [E1 E2]. apply Bool.negb_true_iff in E2. repeat split; assumption.
+        * destruct (pass msg f n (a_end it) nd) as [rest e'] eqn:Ep. intro H; inversion H; subst.
+          destruct (IH _ _ _ Ep) as (good & e & C & L & M). exists (it :: good), e.
+          split; [apply ch_cons; [exact Ef| |exact C]; intro Hn; subst nd; cbn in Ed; destruct (a_data_ok it); [reflexivity|discriminate]|].
+          split; [cbn; lia|]. destruct eo as [e0|].
+          -- destruct M as (M1 & M2 & M3). subst. repeat split; cbn; lia.
+          -- destruct M as (M1 & M2). split; [cbn; lia|]. destruct M2 as [[M2 M3]|(it' & M2 & M3 & M4 & M5)].
+             ++ left. subst. split; [reflexivity|assumption].
+             ++ right. exists it'. subst rest. repeat split; assumption.
+      + intro H; inversion H; subst. exists [], p. split; [constructor|]. split; [cbn; lia|]. split; [cbn; lia|]. left. split; [reflexivity|assumption].
+  Qed.
+
+  Lemma chain_all_ok f p its e : chain msg f (fun it => true = true -> a_data_ok it = true) p its e ->
+    chain msg f (fun it => a_data_ok it = true) p its e /\ filter a_data_ok its = its.
+  Proof.
+    induction 1 as [p|p it rest e Hf Hok Hc [IH1 IH2]]; [split; [constructor|reflexivity]|].
+    specialize (Hok eq_refl). split; [apply ch_cons; assumption|]. cbn [filter]. rewrite Hok, IH2. reflexivity.
+  Qed.
+
+  Lemma filter_snoc_bad (its : list aitem) it : filter a_data_ok its = its -> a_data_ok it = false -> filter a_data_ok (its ++ [it]) = its.
+  Proof. intros H1 H2. rewrite filter_app, H1. cbn [filter]. rewrite H2. apply app_nil_r. Qed.
+
+  (* EVERY message the reader accepts (12..65535 octets) gives the chains of its completely parsed
+     items — the questions of the pass, the records of the pass whose data fits — and says what
+     stands where they end *)
+  Theorem linear_chains_any l : linear_of msg = Some l ->
+    let rs := filter a_data_ok (l_rs l) in
+    lenN msg <= 65535 /\ 12 <= lenN msg /\ l_nq l <= 65535 /\ l_an l <= 65535 /\ l_ns l <= 65535 /\ l_ar l <= 65535 /\
+    exists e1 e2, chain msg question_at (fun _ => True) 12 (l_qs l) e1 /\
+                  chain msg record_at (fun it => a_data_ok it = true) e1 rs e2 /\
+                  lenN (l_qs l) <= l_nq l /\ (lenN (l_qs l) < l_nq l -> rs = [] /\ question_at msg e2 = None) /\
+                  lenN rs <= nrec l /\
+                  (lenN (l_qs l) = l_nq l -> lenN rs < nrec l ->
+                   match record_at msg e2 with Some it => a_data_ok it = false | None => True end).
+  Proof.
+    unfold linear_of. destruct (65535 <? lenN msg) eqn:El; [discriminate|].
+    unfold be. destruct (4 + 2 <=? lenN msg) eqn:E4; [|discriminate]. destruct (6 + 2 <=? lenN msg) eqn:E6; [|discriminate].
+    destruct (8 + 2 <=? lenN msg) eqn:E8; [|discriminate]. destruct (10 + 2 <=? lenN msg) eqn:E10; [|discriminate].
+    set (nq := be_val (subN msg 4 2) 0). set (an := be_val (subN msg 6 2) 0). set (ns := be_val (subN msg 8 2) 0). set (ar := be_val (subN msg 10 2) 0).
+    destruct (pass msg question_at (N.to_nat nq) 12 false) as [qs e] eqn:Eq.
+    intro H; inversion H; subst l; clear H. cbv zeta. cbn [l_qs l_rs l_nq l_an l_ns l_ar nrec].
+    assert (B : forall p, be_val (subN msg p 2) 0 <= 65535) by (intro p; apply be_val_u16).
+    split; [lia|]. split; [lia|]. split; [apply B|]. split; [apply B|]. split; [apply B|]. split; [apply B|].
+    clearbody nq an ns ar.
+    destruct (pass_prefix question_at false _ _ _ _ Eq) as (gq & e1 & Cq & Lq & Mq).
+    assert (Cq' : chain msg question_at (fun _ => True) 12 gq e1).
+    { clear - Cq. induction Cq; [constructor|]. apply ch_cons; [assumption|exact I|assumption]. }
+    destruct e as [e1'|].
+    - destruct Mq as (-> & -> & Mq).
+      destruct (pass msg record_at (N.to_nat (an + ns + ar)) e1 true) as [rs eo] eqn:Er. cbn [fst].
+      destruct (pass_prefix record_at true _ _ _ _ Er) as (gr & e2 & Cr & Lr & Mr).
+      destruct (chain_all_ok _ _ _ _ Cr) as [Cr' Fr].
+      assert (Hrs : filter a_data_ok rs = gr).
+      { destruct eo as [e0|].
+        - destruct Mr as (-> & _ & _). exact Fr.
+        - destruct Mr as (_ & [[-> _]|(it & -> & _ & _ & Hbad)]); [exact Fr|apply filter_snoc_bad; assumption]. }
+      rewrite Hrs. exists e1, e2. split; [exact Cq'|]. split; [exact Cr'|]. unfold nrec. cbn [l_an l_ns l_ar].
+      split; [unfold lenN; lia|]. split; [intro Hlt; exfalso; unfold lenN in Hlt; lia|]. split; [unfold lenN; lia|].
+      intros _ Hlt. destruct eo as [e0|].
+      + destruct Mr as (_ & _ & Mr). unfold lenN in Hlt. lia.
+      + destruct Mr as (_ & [[_ Mr]|(it & _ & Mr & _ & Hbad)]); rewrite Mr; [exact I|exact Hbad].
+    - destruct Mq as (Mq1 & [[-> Mq2]|(it & _ & _ & Mq & _)]); [|discriminate].
+      cbn [fst filter]. exists e1, e1. split; [exact Cq'|]. split; [constructor|]. unfold nrec. cbn [l_an l_ns l_ar].
+      split; [unfold lenN; lia|]. split; [intros _; split; [reflexivity|exact Mq2]|]. split; [unfold lenN; cbn [length]; lia|].
+      intros Hfull. unfold lenN in Hfull. lia.
+  Qed.
+
   (* a message that the linear pass parses completely gives the two chains of ReaderRefine *)
   Theorem linear_chains l : linear_of msg = Some l ->
     lenN (l_qs l) = l_nq l -> lenN (l_rs l) = nrec l -> Forall (fun it => a_data_ok it = true) (l_rs l) ->
@@ -353,3 +532,62 @@ Section L.
       pose proof (pass_short question_at _ _ _ Eq) as Hs. unfold lenN in Hq. lia.
   Qed.
 End L.
+
+(* ---------------------------------------------------------------- packaged for Properties/C09.v *)
+(* [parsed msg nq an ns ar qs rs e1 e2]: msg announces nq questions and an/ns/ar records; qs are
+   the questions that parse back to back from offset 12 up to e1, rs the records that parse
+   completely (header and RDLENGTH octets inside the message) back to back from e1 up to e2; the
+   lists are complete or a prefix, and no record is parsed unless all questions were *)
+Definition parsed (msg : list byte) (nq an ns ar : N) (qs rs : list aitem) (e1 e2 : N) : Prop :=
+  lenN msg <= 65535 /\ 12 <= lenN msg /\
+  chain msg question_at (fun _ => True) 12 qs e1 /\
+  chain msg record_at (fun it => a_data_ok it = true) e1 rs e2 /\
+  lenN qs <= nq /\ (lenN qs < nq -> rs = []) /\ lenN rs <= an + ns + ar /\
+  nq <= 65535 /\ an <= 65535 /\ ns <= 65535 /\ ar <= 65535.
+
+Section W.
+  Variables (msg : list byte) (nq an ns ar : N) (qs rs : list aitem) (e1 e2 : N).
+  Hypothesis Hp : parsed msg nq an ns ar qs rs e1 e2.
+
+  Ltac use L := destruct Hp as (A1 & A2 & A3 & A4 & A5 & A6 & A7 & A8 & A9 & A10 & A11);
+                eapply (L msg A1 A2 nq an ns ar qs rs e1 e2 A3 A4 A5 A6 A7 A8 A9 A10 A11); eassumption.
+
+  Theorem reader_refines_any : forall ops r idx hw idx' hw',
+    RState msg nq an ns ar qs rs e2 r idx hw -> allowed nq an ns ar ops idx hw = Some (idx', hw') ->
+    within nq an ns ar qs rs ops idx hw ->
+    exists r', RState msg nq an ns ar qs rs e2 r' idx' hw' /\ prescribed msg nq an ns ar qs rs r' ops r idx hw.
+  Proof. intros. use reader_refines. Qed.
+
+  Theorem rstate_start_any : forall h c, h_qd h = nq -> h_an h = an -> h_ns h = ns -> h_ar h = ar ->
+    whole msg c -> pos c = 12 -> RState msg nq an ns ar qs rs e2 (mkReader c (tr_set tr_default h) false) 0 0.
+  Proof. intros. use rstate_start. Qed.
+
+  Theorem fail_question_any : forall r idx hw, RState msg nq an ns ar qs rs e2 r idx hw ->
+    idx = lenN qs -> idx < nq -> question_at msg e2 = None ->
+    exists r' e, rd_question msg false true r = (r', Err e) /\ r_done r' = true.
+  Proof. intros. use fail_question. Qed.
+
+  Theorem fail_record_any : forall r idx hw, RState msg nq an ns ar qs rs e2 r idx hw ->
+    lenN qs = nq -> idx = nq + lenN rs -> lenN rs < an + ns + ar ->
+    match record_at msg e2 with
+    | None => exists r' e, rd_marker msg r = (r', Err e) /\ r_done r' = true
+    | Some it =>
+      a_data_ok it = false ->
+      let mk := mkMarker e2 (a_type_off it) (a_type it) (a_class it) (a_ttl it) (a_rdlen it) (section_of (lin nq an ns ar) (idx - nq)) in
+      exists r1 r2 e, rd_marker msg r = (r1, Ok (OMarker mk)) /\ rd_skip_data mk r1 = (r2, Err e) /\ r_done r2 = true
+    end.
+  Proof. intros. use fail_record. Qed.
+End W.
+
+Theorem linear_parsed msg l : linear_of msg = Some l ->
+  let rs := filter a_data_ok (l_rs l) in
+  exists e1 e2, parsed msg (l_nq l) (l_an l) (l_ns l) (l_ar l) (l_qs l) rs e1 e2 /\
+    (lenN (l_qs l) < l_nq l -> question_at msg e2 = None) /\
+    (lenN (l_qs l) = l_nq l -> lenN rs < nrec l ->
+     match record_at msg e2 with Some it => a_data_ok it = false | None => True end).
+Proof.
+  intro H. cbv zeta. destruct (linear_chains_any msg l H) as (B1 & B2 & B3 & B4 & B5 & B6 & e1 & e2 & C1 & C2 & C3 & C4 & C5 & C6).
+  exists e1, e2. split; [|split; [intro Hlt; apply C4; exact Hlt|exact C6]].
+  unfold parsed. unfold nrec in C5. repeat (split; [assumption|]). split; [intro Hlt; apply C4; exact Hlt|].
+  repeat (split; [assumption|]). assumption.
+Qed.
